@@ -3,6 +3,7 @@ import Driver.Dominance
 import Driver.Archive
 import Driver.Catchment
 import Driver.Suppa
+import Driver.Engine
 import Driver.Config
 import Driver.Derive
 import Driver.EngineSummary
@@ -35,6 +36,7 @@ def main (args : List String) : IO UInt32 := do
   | ["engine-summaries"] => Driver.run ({} : Driver.EngineSummary.St) Driver.EngineSummary.step; return 0
   | ["derive"] => Driver.run ({} : Driver.Derive.St) Driver.Derive.step; return 0
   | ["config-runs"] => Driver.run ({} : Driver.Config.St) Driver.Config.step; return 0
+  | ["engine"] => Driver.run ({} : Driver.Engine.St) Driver.Engine.step; return 0
   | ["suppa"] => Driver.run ({} : Driver.Suppa.St) Driver.Suppa.step; return 0
   | ["catchment"] => Driver.run ({} : Driver.Catchment.St) Driver.Catchment.step; return 0
   | _ =>
